@@ -1,6 +1,6 @@
 """Per-property configuration of the checks (parts, bounds, non-triviality rules, evidence text)."""
 
-HARNESS_SOURCES = ["main.cc", "engine_poly.cc", "engine_tet.cc", "engine_hex.cc", "mon_hist.cc", "mon_c12.cc", "mon_iter.cc", "mon_query.cc", "mon_c13.cc", "mon_c14.cc", "mon_c15.cc", "mon_c16.cc", "mon_c19.cc", "mon_c20.cc"]
+HARNESS_SOURCES = ["main.cc", "engine_poly.cc", "engine_tet.cc", "engine_hex.cc", "mon_hist.cc", "mon_c12.cc", "mon_iter.cc", "mon_query.cc", "mon_c13.cc", "mon_c14.cc", "mon_c15.cc", "mon_c16.cc", "mon_c19.cc", "mon_c20.cc", "mon_c06.cc"]
 
 def cnt(js, k):
     return js.get("cnt", {}).get(k, 0)
@@ -83,6 +83,18 @@ PROPS = {
   "floor": {"quick": 200, "thorough": 4000},
   "min_counts": {"circulators": 200000, "circulators.empty-centre": 1000, "entity-iterators": 5000, "circ.back-steps": 1000000},
   "assumptions": COMMON_ASSUME + ["valid() is not judged after an iterator left the valid range and came back (handle and lap are)", "faces of valence 0 and centres outside the mesh are outside the domain"],
+ },
+ "C06": {
+  "level": "exploration",
+  "technique": "canonical bit-exact mesh form compared across write/read; independent OVMB decoder and re-encoder written from the ksy (spans, widths, offsets, skippable chunks, orders); ASCII double round trip; pending-deletion probes",
+  "parts": [
+    {"name": "rel", "flavor": "asan-rel", "monitor": "C06", "cases": {"quick": 400, "thorough": 8000}},
+  ],
+  "nontrivial": {"fn": lambda js: cnt(js, "ovmb.reads") + cnt(js, "ascii.reads") >= 2 or cnt(js, "pending.files") >= 1 or cnt(js, "ovmb.boundary-files") >= 1,
+                 "text": "case = generated poly/tet/hex mesh (engine history, garbage collected; empty meshes every 23rd case) with 2-9 persistent properties over 7 entity kinds x 31 value types (all OVMB codecs / the ASCII typeName list), random values incl. NaN/inf/-0/denormals for OVMB. OVMB: writer bytes are decoded by an independent ksy-based decoder and must equal the mesh bit for bit (values, defaults, header type); library round trip into every compatible mesh type x topology check on (meshes that pass it)/off x incidences on/off (+C01 oracle); incompatible types refused; 6 (thorough 12) alternative permitted encodings from an independent encoder (1-4 spans per array, u8->u16->u32 widening, float positions where exact, fixed/variable valence, non-zero handle_offset, unknown non-mandatory chunks, interleaved chunk order, late DIRP, odd padding) must read to the same mesh. ASCII: write/read/write; printable-exact values compared exactly, arbitrary doubles to 1e-5, second round trip byte-identical, isHexahedralMesh/isTetrahedralMesh and IO::read_file on real files. Every 10th case: mesh with pending deletions must be refused or written as its logical content; boundary cases at 255/256 (thorough also 65535/65536) entities. non-trivial = >=2 reads, or a pending / boundary file; distinct by operation digest"},
+  "floor": {"quick": 150, "thorough": 3000},
+  "min_counts": {"ovmb.variants": 500, "ovmb.reads": 500, "ascii.reads": 300, "pending.files": 10},
+  "assumptions": COMMON_ASSUME + ["PROP payload encodings are not part of the ksy: the reference decoder assumes little-endian fixed-size elements, LSB-first bit packing for bool and u32-length-prefixed strings", "ASCII values of char type are restricted to printable non-space characters; strings to printable characters"],
  },
  "C08": {
   "level": "exploration",
@@ -252,6 +264,8 @@ LEVEL_TEXT = {
          "note": "trusted: the model's cascade (faces bounding no cell, then edges without face, then vertices without edge)"},
  "C05": {"text": "Runtime exploration: every iterator/circulator kind is exercised on every live centre of thousands of reached states and compared with brute-force incident sets and with its own other protocols (the oracle needs no expected numbers).",
          "note": "trusted: Scan; iterator copies compare with operator== of the library (also cross-checked by handle+lap)"},
+ "C06": {"text": "Runtime exploration with an independent implementation of the format: thousands of generated meshes with properties of every registered type are written, decoded independently, re-encoded in every permitted variant and read back; equality is bit-exact on a canonical form.",
+         "note": "trusted: the reference decoder/encoder (cross-checked against each other on every variant); Canon extraction through cast_to_StorageT"},
  "C08": {"text": "Conversion identities: quick samples ranges, thorough enumerates every index in [0,2^30) (complete for that sub-space) under UBSan; mirror identities are explored on every edge/face of thousands of reached states.",
          "note": "trusted: UBSan for the arithmetic; Scan for the stored definitions"},
  "C09": {"text": "Runtime exploration: the fan structure around every edge is recomputed by brute force after every step and the reported order is checked against the successor relation; adjacency in cells against the unique-candidate scan.",
